@@ -209,21 +209,17 @@ class QvmEval(EvaluationContext):
 
     def eval_var(self, var):
         var = var.lower()
-        if var in self.global_vars:
+
+        # the same order as the compiler: parameters and locals of the
+        # current routine, its STATIC variables, then SHARED globals
+        frame = self.cpu.cur_frame
+        if frame is not None:
+            routine = self.find_routine_func(frame.code_start)
             try:
-                return (self.cpu.globals_segment,
-                        get_global_var_idx(self, var))
+                return frame, get_local_var_idx(routine, var)
             except KeyError:
                 pass
 
-        frame = self.cpu.cur_frame
-        if frame is None:
-            raise EvalError('No stack frame')
-        routine = self.find_routine_func(frame.code_start)
-
-        try:
-            var_idx = get_local_var_idx(routine, var)
-        except KeyError:
             if var in routine.static_vars:
                 # STATIC variables live in the globals segment under
                 # a name qualified with the routine's
@@ -233,8 +229,17 @@ class QvmEval(EvaluationContext):
                             get_global_var_idx(self, full_name))
                 except KeyError:
                     pass
-            raise EvalError('Unknown variable')
-        return self.cpu.cur_frame, var_idx
+
+        if var in self.global_vars:
+            try:
+                return (self.cpu.globals_segment,
+                        get_global_var_idx(self, var))
+            except KeyError:
+                pass
+
+        if frame is None:
+            raise EvalError('No stack frame')
+        raise EvalError('Unknown variable')
 
     def read_array(self, segment, base_idx, element_type):
         def mul(ls):
